@@ -130,6 +130,8 @@ pub struct Profile {
     pub class_b_permille: u64,
     /// see `Gen::embedded_k2_permille`
     pub embedded_k2_permille: u64,
+    /// see `Gen::dup_heavy_permille`
+    pub dup_heavy_permille: u64,
 }
 
 impl Default for Profile {
@@ -154,6 +156,7 @@ impl Default for Profile {
             kernel_fault_permille: 0,
             class_b_permille: 0,
             embedded_k2_permille: 0,
+            dup_heavy_permille: 0,
             tick_limit: 0,
         }
     }
@@ -287,6 +290,7 @@ pub fn run<K: SimKernel<D>, const D: usize>(
     gener.legal_bias_permille = profile.legal_bias_permille;
     gener.preset_incident_permille = profile.preset_incident_permille;
     gener.embedded_k2_permille = profile.embedded_k2_permille;
+    gener.dup_heavy_permille = profile.dup_heavy_permille;
     if let Some(tune) = profile.tune {
         let mut r = Rng::sub(rs, "tune", 0);
         tune(&mut gener.weights, &mut r, D);
